@@ -434,8 +434,12 @@ func checkC07(p *core.Program, r *core.Report) {
 	rndOK := idx != nil
 	bad := ""
 	hasLen, hasDec := false, false
-	if idx != nil {
-		for v := range core.BackSlice(idx, func(*ssa.Call) bool { return true }) {
+	// the slice of the index is followed into helpers of the router's package whose result it is (an extracted
+	// scaling function): the helper's body must obey the same whitelist, its parameters are bound to the arguments of
+	// the call, which the slice of the caller already covers.
+	var sliceIdx func(v ssa.Value, top bool, depth int)
+	sliceIdx = func(v ssa.Value, top bool, depth int) {
+		for v := range core.BackSlice(v, func(*ssa.Call) bool { return true }) {
 			if c, ok := v.(*ssa.Call); ok {
 				if b, ok := c.Call.Value.(*ssa.Builtin); ok {
 					if b.Name() == "len" {
@@ -444,6 +448,14 @@ func checkC07(p *core.Program, r *core.Report) {
 					continue
 				}
 				o := core.CalleeObj(&c.Call)
+				if g := c.Call.StaticCallee(); g != nil && (o == nil || !allowed[core.ObjName(o)]) && len(g.Blocks) > 0 && depth < 2 && core.FuncPkgPath(g) == core.FuncPkgPath(rnd) {
+					for _, ret := range core.Returns(g) {
+						for _, rv := range ret.Results {
+							sliceIdx(rv, false, depth+1)
+						}
+					}
+					continue
+				}
 				if o == nil || !allowed[core.ObjName(o)] {
 					rndOK = false
 					if o != nil {
@@ -453,11 +465,14 @@ func checkC07(p *core.Program, r *core.Report) {
 					hasDec = true
 				}
 			}
-			if _, ok := v.(*ssa.Parameter); ok && v != ssa.Value(rnd.Params[0]) {
+			if _, ok := v.(*ssa.Parameter); ok && top && v != ssa.Value(rnd.Params[0]) {
 				rndOK = false
 				bad = "parameter " + v.Name()
 			}
 		}
+	}
+	if idx != nil {
+		sliceIdx(idx, true, 0)
 	}
 	r.Check(rndOK && hasLen && hasDec, "R4", "RandomRouter.Route/index-from-draw", p.Pos(rnd.Pos()), "category index = IntPart(random.Decimal() * len(categories))", "the random router's category index depends on something other than the random draw and the number of categories: "+bad)
 
